@@ -17,7 +17,7 @@ import z3
 
 from pyvc.registry import reg
 from pyvc.interp import Interp
-from pyvc.core import PList, PDict, SymObj, ClassVal, fresh_int, fresh_bool, fresh_name, Unsupported, PyvcError, Obligation
+from pyvc.core import PList, PDict, SymObj, ClassVal, fresh_int, fresh_bool, fresh_name, Unsupported, PyvcError, Obligation, same_value
 from pyvc import source as src, bvmode
 
 ARR = "xobjects/array.py"
@@ -314,8 +314,8 @@ def vc_array_layout():
                     static_shape = ndyn == 0
                     dspec = (8 if (isz is None or not static_shape) else 0) + 8 * ndyn + (8 * rank if (ndyn > 0 and rank > 1) else 0)
                     ob("data_offset", d.get("_data_offset") == dspec)
-                    ob("is_static_shape", d.get("_is_static_shape") is static_shape)
-                    ob("is_static_type", d.get("_is_static_type") is (isz is not None))
+                    ob("is_static_shape", same_value(d.get("_is_static_shape"), static_shape))
+                    ob("is_static_type", same_value(d.get("_is_static_type"), isz is not None))
                     if static_shape or rank == 1:
                         sgot = d.get("_strides")
                         ok = isinstance(sgot, tuple) and len(sgot) == rank
@@ -335,7 +335,7 @@ def vc_array_layout():
                         ob("size_is_dynamic", d.get("_size") is None)
                     hr = d.get("_has_refs")
                     if isz is not None:
-                        ob("has_refs", hr is False)
+                        ob("has_refs", same_value(hr, False))
                     else:
                         ob("has_refs", isinstance(hr, bool) and (item.attrs["_has_refs"] == z3.BoolVal(hr)))
                 obs += it.obligations
@@ -464,7 +464,7 @@ def vc_array_handle():
                 h = out[1]
                 ob = lambda c, g: it.oblige(st, "post", f"{c}[{lab}]", g if not isinstance(g, bool) else z3.BoolVal(g))
                 b = it._relocate(st, buf)
-                ob("buffer_and_offset", h.attrs.get("_buffer") is b and h.attrs.get("_offset") is o)
+                ob("buffer_and_offset", same_value(h.attrs.get("_offset"), o) if h.attrs.get("_buffer") is b else False)
                 ob("bytes_unchanged", z3.eq(b.mem, buf.mem))
                 if not (sp["static_items"] and ndyn == 0):
                     ob("size_word", "_size" in h.attrs and h.attrs["_size"] == XB.W8(b.mem, o))
@@ -901,6 +901,10 @@ group("unionref", vc_unionref, [(REF, "MetaUnionRef._to_buffer"), (REF, "MetaUni
 STRUCT = "xobjects/struct.py"
 
 
+def zb(v):
+    return z3.BoolVal(v) if isinstance(v, bool) else v
+
+
 def field_type(st, dynamic, k):
     sz = None
     if not dynamic:
@@ -968,7 +972,7 @@ def vc_struct_layout_small():
                         cur = z3.IntVal(0)
                         for k in range(n):
                             ob(f"offset{k}", F[k].attrs["offset"] == cur)
-                            ob(f"not_reference{k}", F[k].attrs["is_reference"] is False)
+                            ob(f"not_reference{k}", same_value(F[k].attrs["is_reference"], False))
                             cur = cur + slot_int(sizes[k])
                         ob("size", d.get("_size") == cur)
                     else:
@@ -976,18 +980,19 @@ def vc_struct_layout_small():
                         for k in range(n):
                             if not pattern[k]:
                                 ob(f"offset{k}", F[k].attrs["offset"] == cur)
-                                ob(f"not_reference{k}", F[k].attrs["is_reference"] is False)
+                                ob(f"not_reference{k}", same_value(F[k].attrs["is_reference"], False))
                                 cur = cur + slot_int(sizes[k])
                         dyn = [k for k in range(n) if pattern[k]]
                         for k in dyn[1:]:
                             ob(f"offset_word_slot{k}", F[k].attrs["offset"] == cur)
-                            ob(f"is_reference{k}", F[k].attrs["is_reference"] is True)
+                            ob(f"is_reference{k}", same_value(F[k].attrs["is_reference"], True))
                             cur = cur + 8
                         ob(f"first_dynamic_offset{dyn[0]}", F[dyn[0]].attrs["offset"] == cur)
-                        ob(f"first_dynamic_not_reference{dyn[0]}", F[dyn[0]].attrs["is_reference"] is False)
+                        ob(f"first_dynamic_not_reference{dyn[0]}", same_value(F[dyn[0]].attrs["is_reference"], False))
                         ob("size_is_dynamic", d.get("_size") is None)
                     hr = d.get("_has_refs")
-                    ob("has_refs", isinstance(hr, bool) and (z3.Or(*[t.attrs["_has_refs"] for t, _ in types]) if n else z3.BoolVal(False)) == z3.BoolVal(hr))
+                    want_hr = z3.Or(*[t.attrs["_has_refs"] for t, _ in types]) if n else z3.BoolVal(False)
+                    ob("has_refs", want_hr == (z3.BoolVal(hr) if isinstance(hr, bool) else hr) if isinstance(hr, bool) or z3.is_bool(hr) else False)
                     ob("static_and_dynamic_field_lists", [f.attrs["index"] for f in d["_s_fields"].items] == [k for k in range(n) if not pattern[k]]
                        and [f.attrs["index"] for f in d["_d_fields"].items] == [k for k in range(n) if pattern[k]])
             except Unsupported as e:
@@ -1087,17 +1092,17 @@ def vc_struct_layout_loops():
                     off = fd.attrs["offset"]
                     interp.oblige(st, f"inv{k}.preserve", f"first_dynamic_field_placed_after_the_header[{lab}]",
                                   z3.And(off >= 8, off % 8 == 0, off == off2) if off is not None else z3.BoolVal(False), node.lineno)
-                    interp.oblige(st, f"inv{k}.preserve", f"first_dynamic_field_not_reference[{lab}]", z3.BoolVal(fd.attrs["is_reference"] is False), node.lineno)
+                    interp.oblige(st, f"inv{k}.preserve", f"first_dynamic_field_not_reference[{lab}]", zb(same_value(fd.attrs["is_reference"], False)), node.lineno)
                     return
                 e = interp._relocate(st, elem)
                 OFF = g["OFF"]
                 ob = lambda c, gl: interp.oblige(st, f"inv{k}.preserve", f"{c}[{lab}:{list_name}]", gl if not isinstance(gl, bool) else z3.BoolVal(gl), node.lineno)
                 ob("field_placed_at_running_offset", e.attrs["offset"] == OFF)
                 if list_name == "d_fields[1:]":
-                    ob("is_reference", e.attrs["is_reference"] is True)
+                    ob("is_reference", same_value(e.attrs["is_reference"], True))
                     ob("advance_by_one_slot", off2 == OFF + 8)
                 else:
-                    ob("not_reference", e.attrs["is_reference"] is False)
+                    ob("not_reference", same_value(e.attrs["is_reference"], False))
                     ob("advance_by_slot_size", off2 == OFF + slot_int(elem.spec_size))
                     ob("next_part_after_this_one", off2 >= OFF + elem.spec_size)
                 ob("offset_after_header_multiple_of_8", z3.And(off2 >= LB, off2 % 8 == 0))
@@ -1266,7 +1271,7 @@ def vc_struct_small():
                         continue
                     h = out[1]
                     ob = lambda c, g: it.oblige(st, "post", f"{c}[{lab}]", g if not isinstance(g, bool) else z3.BoolVal(g))
-                    ob("buffer_and_offset", getattr(h.attrs.get("_buffer"), "uid", None) == buf.uid and h.attrs.get("_offset") is o)
+                    ob("buffer_and_offset", same_value(h.attrs.get("_offset"), o) if getattr(h.attrs.get("_buffer"), "uid", None) == buf.uid else False)
                     offs = h.attrs.get("_offsets")
                     ob("offsets_cached_for_dynamic_fields", isinstance(offs, PDict) and sorted(offs.items) == dyn)
                     if isinstance(offs, PDict):
